@@ -233,15 +233,30 @@ def generate(run, tier):
     return cases
 
 
+WORLD_STEPS = ("classImplements", "classImplementsFirst", "classImplementsOnly")
+
+
 def coq_case(case, obs, mode):
     if "error" in obs:
         raise C.HarnessError("driver error: " + obs["error"])
-    # every non-string stand-in is the model's NotAString (RC.c_name_arg knows "X")
-    ops = [[("X" if isinstance(x, str) and x.startswith("X") and i == 4 else x) for i, x in enumerate(op)]
-           for op in obs["ops"]]
-    resolved = dict(case, ops=ops)
+    # split the executed history at the world steps: one phase per observed world
+    chunks, cur = [], []
+    for op in obs["ops"]:
+        if op[0] in WORLD_STEPS:
+            chunks.append(cur)
+            cur = []
+        else:
+            # every non-string stand-in is the model's NotAString (RC.c_name_arg knows "X")
+            cur.append([("X" if isinstance(x, str) and x.startswith("X") and i == 4 else x) for i, x in enumerate(op)])
+    chunks.append(cur)
+    assert len(chunks) == len(obs["phases"])
+    phases = []
+    for ph, ops in zip(obs["phases"], chunks):
+        phases.append("(%s, %s, %s,\n    [%s])" % (
+            RC.c_graph(ph), RC.c_ifaces(ph), RC.c_lnat(ph["changed"]),
+            ";\n     ".join(RC.c_op(op, ph, case.get("objects", [])) for op in ops)))
     # the separator 999999 is a unary nat in Coq (16 MB each): name the shared constant instead
-    return RC.coq_hist_case(resolved, obs).replace("999999", "MARK")
+    return "([%s],\n   %s)" % (";\n   ".join(phases), RC.c_answers(obs["answers"]).replace("999999", "MARK"))
 
 
 QUERY_KINDS = ("lookup", "lookup1", "queryAdapter", "adapter_hook", "queryMultiAdapter", "lookupAll", "names",
@@ -251,7 +266,8 @@ QUERY_KINDS = ("lookup", "lookup1", "queryAdapter", "adapter_hook", "queryMultiA
 def classify(case, obs):
     if "error" in obs:
         return None
-    found = any(op[0] == "lookup" and a[:1] == [1] for op, a in zip(obs["ops"], obs["answers"]))
+    rops = [op for op in obs["ops"] if op[0] not in WORLD_STEPS]
+    found = any(op[0] == "lookup" and a[:1] == [1] for op, a in zip(rops, obs["answers"]))
     if not found:
         return None
     firsts, prev_mut = [], True
@@ -284,7 +300,9 @@ def replay_text(case, obs, mode):
              "#          lookupAll: name,value pairs; subscribers: results, 999999, called subscriptions"]
     if "error" in obs:
         return "\n".join(lines + ["# driver error: " + obs["error"]])
-    for op, a in zip(obs["ops"], obs["answers"]):
+    answers = iter(obs["answers"])
+    for op in obs["ops"]:
+        a = None if op[0] in WORLD_STEPS else next(answers)
         lines.append("%-70r -> %r" % (op, a) if op[0] in QUERY_KINDS else "%r" % (op,))
     return "\n".join(lines)
 
